@@ -32,7 +32,7 @@ func (bc *BatchConfig) EnsureValid() error {
 	if bc.Threshold == 0 {
 		return errors.Errorf("threshold must not be zero")
 	}
-	if int(bc.Threshold) > len(bc.Keypers) {
+	if bc.Threshold > uint64(len(bc.Keypers)) {
 		return errors.Errorf("threshold too high")
 	}
 	// XXX maybe we should check for duplicate addresses
